@@ -59,6 +59,7 @@ class Instr:
         self.task_objs = []
         self.executors = []      # CoopExecutor instances in creation order
         self.sem_names = {}
+        self.missing = []        # methods that could not be instrumented
         self.in_cancel = {}      # id(thread) -> depth inside cancel()
         self.cancel_pending = {} # id(thread) -> True while the locked section has not run
         self.fut_task = {}       # id(ExecutorFuture) -> task id
@@ -110,7 +111,12 @@ class Instr:
         TC = futures.TransferCoordinator
 
         def wrap(cls, name, maker):
-            orig = cls.__dict__[name]
+            orig = cls.__dict__.get(name)
+            if orig is None:
+                # the method is gone (refactored away): nothing to instrument; the trace
+                # then lacks its records and trace validation reports the difference
+                self.missing.append(f'{cls.__name__}.{name}')
+                return
             self._patch(cls, name, maker(orig))
 
         # -- coordinator ---------------------------------------------------
